@@ -51,6 +51,34 @@ type Case struct {
 	// WriteTo: the handler consumes the body with ctx.Request.BodyWriteTo(w) where w accepts Stop bytes and then fails
 	// (Stop < 0: never fails) - the API copies the stream and then detaches it from the request
 	WriteTo bool `json:"write_to,omitempty"`
+	// Wrap: the handler wraps the stream in a reader that produces two bytes for each byte it consumes (what a decompressing
+	// middleware does), installs that as the request's body stream and collects it with BodyE(); what the connection's
+	// stream itself returned is recorded underneath the wrapper
+	Wrap bool `json:"wrap,omitempty"`
+}
+
+// expander doubles every byte of r.
+type expander struct {
+	r    io.Reader
+	pend []byte
+	err  error
+}
+
+func (e *expander) Read(p []byte) (int, error) {
+	for len(e.pend) == 0 {
+		if e.err != nil {
+			return 0, e.err
+		}
+		var in [512]byte
+		n, err := e.r.Read(in[:])
+		for _, b := range in[:n] {
+			e.pend = append(e.pend, b, b)
+		}
+		e.err = err
+	}
+	n := copy(p, e.pend)
+	e.pend = e.pend[n:]
+	return n, nil
 }
 
 type limitedWriter struct {
@@ -140,6 +168,23 @@ func (w *worker) server(maxBody int) *srvh.Server {
 			// probe (or a smuggled request): read whatever body it claims to have
 			b, _ := io.ReadAll(io.LimitReader(r, 1<<20))
 			sn.Body = b
+			return
+		}
+		if cs.Wrap {
+			var under bytes.Buffer
+			ctx.Request.SetBodyStream(&expander{r: io.TeeReader(r, &under)}, -1)
+			b, err := ctx.Request.BodyE()
+			lg.got, lg.eofAt, lg.reads = append([]byte(nil), under.Bytes()...), -1, 1
+			if err == nil {
+				lg.eofAt = len(lg.got)
+				lg.extraRead = "0,EOF"
+				if len(b) != 2*len(lg.got) {
+					lg.errs = append(lg.errs, fmt.Sprintf("BodyE() of the doubling wrapper returned %d bytes for %d stream bytes", len(b), len(lg.got)))
+				}
+			} else {
+				lg.errs = append(lg.errs, err.Error())
+			}
+			sn.Body = lg.got
 			return
 		}
 		if cs.WriteTo {
@@ -248,6 +293,9 @@ func (w *worker) exec(c *mc.Ctx, cs Case) {
 		}
 		if cs.WriteTo {
 			enc += "|via-BodyWriteTo"
+		}
+		if cs.Wrap {
+			enc += "|via-wrapping-stream"
 		}
 		c.Violate(fmt.Sprintf("%s|%s|limit=%s|stop=%s", kind, enc, limit, stopClass(cs)), msg, cs)
 	}
@@ -466,6 +514,11 @@ func cases(thorough bool) []Case {
 								if mb == 0 && rs == 4096 {
 									cs.WriteTo = true
 									out = append(out, cs)
+									cs.WriteTo = false
+								}
+								if mb == 0 && rs == 4096 && stop == -1 {
+									cs.Wrap = true
+									out = append(out, cs)
 								}
 							}
 							// the peer closes inside the message: every truncation point after the header block
@@ -551,6 +604,9 @@ func cases(thorough bool) []Case {
 								out = append(out, Case{Len: n, Chunked: ch != nil, Chunks: ch, Trailer: tr, MaxBody: mb, ReadSize: rs, Stop: stop, Seg: seg})
 								if mb == 0 && rs == 4096 {
 									out = append(out, Case{Len: n, Chunked: ch != nil, Chunks: ch, Trailer: tr, ReadSize: rs, Stop: stop, Seg: seg, WriteTo: true})
+								}
+								if mb == 0 && rs == 4096 && stop == -1 {
+									out = append(out, Case{Len: n, Chunked: ch != nil, Chunks: ch, Trailer: tr, ReadSize: rs, Stop: stop, Seg: seg, Wrap: true})
 								}
 							}
 							if mb == 0 && !tr {
